@@ -4,6 +4,8 @@ from fractions import Fraction
 import common as C
 
 ID = "C19"
+# files this check also depends on (the quick tier runs at the thorough sizes when one of them differs from the fingerprinted tree)
+EXTRA_FILES = ['src/utils/utils.rs']
 COQ_TARGETS = ["Exec/Yaml.vo", "Properties/C19.vo"]
 THEOREMS = ["C19_yaml_roundtrip", "C19_empty_is_error", "C19_int_or_real", "C19_deg_or_radians", "C19_five_entries_padded", "C19_dof_either_place"]
 LEVEL_TEXT = ("Coq theorems for every parameter set over the rationals (any lengths incl. integral/negative, any offsets, signs, dof 5/6, any pi>0): "
